@@ -434,6 +434,14 @@ def stage_mc(ctx, st):
     ctx.transitions += r["generated"]
     ctx.log("MC %s/%s: %d distinct states, %d generated, ok=%s (%.1fs)" % (st["module"], cfgname, r["distinct"],
                                                                         r["generated"], r["ok"], r["wall"]))
+    if st.get("expect_violation"):
+        # vacuity guard: a deliberately broken variant of the model must be refuted by TLC
+        if r["violated"] != st["expect_violation"]:
+            raise Inconclusive("model variant %s was expected to violate %s; TLC said: %s" % (
+                cfgname, st["expect_violation"], r["violated"] or r["error"] or "no error"))
+        ctx.mc_runs[-1]["ok"] = True
+        ctx.mc_runs[-1]["expected_counterexample"] = st["expect_violation"]
+        r["ok"] = True
     if not r["ok"]:
         # a counterexample that exists only in the model is never a violation of the code
         tail = "\n".join(r["out"].splitlines()[-60:])
